@@ -1,1 +1,346 @@
-//! c12 — harnesses not written yet.
+//! C12 — replacement merges the two top populations as its name says.
+//! Code: mahf::components::replacement::common::{DiscardOffspring,Generational,Merge,MuPlusLambda,RandomReplacement,KeepBetterAtIndex}::replace (called directly)
+//! Code: mahf::components::replacement::replacement (driver, through a prepared State)
+//! Out: parents/offspring with more than 3 individuals each; unevaluated individuals for the fitness-based operators (their documented precondition)
+//! Assume: individuals carry unique tags (parents 0.., offspring 10..) so multiset containment is checkable by tag; objectives are arbitrary legal f64
+use mahf::components::replacement::{
+    DiscardOffspring, Generational, KeepBetterAtIndex, Merge, MuPlusLambda, RandomReplacement, Replacement,
+};
+use mahf::components::Component;
+use mahf::state::common::Populations;
+use mahf::{Individual, Random, State};
+
+use crate::problems::{obj, TagP};
+use crate::rng::sym_random;
+use crate::sym;
+
+type Pop = Vec<Individual<TagP>>;
+
+fn mk(n: usize, base: u8, o: &mut [f64; 4]) -> Pop {
+    let mut v = Vec::with_capacity(4);
+    let mut i = 0;
+    while i < n {
+        o[i] = sym::legal_f64();
+        v.push(Individual::new(base + i as u8, obj(o[i])));
+        i += 1;
+    }
+    v
+}
+
+fn same(ind: &Individual<TagP>, tag: u8, o: f64) -> bool {
+    *ind.solution() == tag && ind.is_evaluated() && ind.objective().value().to_bits() == o.to_bits()
+}
+
+/// Every member of `r` is one of the inputs (tag and objective), and no tag occurs twice.
+fn submultiset(r: &[Individual<TagP>], np: usize, nq: usize, po: &[f64; 4], qo: &[f64; 4]) -> bool {
+    let mut i = 0;
+    while i < r.len() {
+        let t = *r[i].solution();
+        let ok = if t < 10 {
+            (t as usize) < np && same(&r[i], t, po[t as usize])
+        } else {
+            ((t - 10) as usize) < nq && same(&r[i], t, qo[(t - 10) as usize])
+        };
+        if !ok {
+            return false;
+        }
+        let mut j = 0;
+        while j < i {
+            if *r[j].solution() == t {
+                return false;
+            }
+            j += 1;
+        }
+        i += 1;
+    }
+    true
+}
+
+fn contains_tag(r: &[Individual<TagP>], t: u8) -> bool {
+    let mut i = 0;
+    while i < r.len() {
+        if *r[i].solution() == t {
+            return true;
+        }
+        i += 1;
+    }
+    false
+}
+
+fn exact_ops(np: usize, nq: usize) {
+    let (mut po, mut qo) = ([0.0; 4], [0.0; 4]);
+    let mut rng = sym_random(0);
+    // DiscardOffspring
+    let r = Replacement::<TagP>::replace(&DiscardOffspring::from_params(), mk(np, 0, &mut po), mk(nq, 10, &mut qo), &mut rng);
+    match r {
+        Ok(r) => {
+            assert!(r.len() == np, "DiscardOffspring keeps exactly the parents");
+            let mut i = 0;
+            while i < np {
+                assert!(same(&r[i], i as u8, po[i]), "DiscardOffspring keeps parents in order, unchanged");
+                i += 1;
+            }
+            std::mem::forget(r);
+        }
+        Err(_) => assert!(false, "DiscardOffspring never errs"),
+    }
+    // Generational (mu is arbitrary and must not matter)
+    let mu = sym::u32();
+    let r = Replacement::<TagP>::replace(&Generational::from_params(mu), mk(np, 0, &mut po), mk(nq, 10, &mut qo), &mut rng);
+    match r {
+        Ok(r) => {
+            assert!(r.len() == nq, "Generational keeps exactly the offspring");
+            let mut i = 0;
+            while i < nq {
+                assert!(same(&r[i], 10 + i as u8, qo[i]), "Generational keeps offspring in order, unchanged");
+                i += 1;
+            }
+            std::mem::forget(r);
+        }
+        Err(_) => assert!(false, "Generational never errs"),
+    }
+    // Merge
+    let r = Replacement::<TagP>::replace(&Merge::from_params(), mk(np, 0, &mut po), mk(nq, 10, &mut qo), &mut rng);
+    match r {
+        Ok(r) => {
+            assert!(r.len() == np + nq, "Merge keeps everyone");
+            let mut i = 0;
+            while i < np {
+                assert!(same(&r[i], i as u8, po[i]), "Merge: parents first, in order");
+                i += 1;
+            }
+            let mut i = 0;
+            while i < nq {
+                assert!(same(&r[np + i], 10 + i as u8, qo[i]), "Merge: then offspring, in order");
+                i += 1;
+            }
+            std::mem::forget(r);
+        }
+        Err(_) => assert!(false, "Merge never errs"),
+    }
+    assert!(crate::rng::draws() == 0, "deterministic operators draw nothing");
+    std::mem::forget(rng);
+}
+
+macro_rules! h2 {
+    ($name:ident, $f:ident, $a:expr, $b:expr, $uw:expr) => {
+        #[cfg_attr(kani, kani::proof)]
+        #[cfg_attr(kani, kani::unwind($uw))]
+        pub fn $name() {
+            $f($a, $b);
+            vcover!(true, "reached");
+        }
+    };
+}
+
+// @h tier=quick bound="parents 0, offspring 0" unwind=4
+h2!(h_c12_exact_0_0, exact_ops, 0, 0, 4);
+// @h tier=quick bound="parents 2, offspring 1; all legal objectives" unwind=5
+h2!(h_c12_exact_2_1, exact_ops, 2, 1, 5);
+// @h tier=quick bound="parents 1, offspring 2; all legal objectives" unwind=5
+h2!(h_c12_exact_1_2, exact_ops, 1, 2, 5);
+// @h tier=quick bound="parents 2, offspring 0" unwind=5
+h2!(h_c12_exact_2_0, exact_ops, 2, 0, 5);
+// @h tier=thorough bound="parents 3, offspring 3; all legal objectives" unwind=6
+h2!(h_c12_exact_3_3, exact_ops, 3, 3, 6);
+
+fn mu_plus_lambda(np: usize, nq: usize) {
+    let (mut po, mut qo) = ([0.0; 4], [0.0; 4]);
+    let mut rng = sym_random(0);
+    let mu = sym::u32();
+    let total = np + nq;
+    let r = Replacement::<TagP>::replace(&MuPlusLambda::from_params(mu), mk(np, 0, &mut po), mk(nq, 10, &mut qo), &mut rng);
+    match r {
+        Ok(r) => {
+            let want = if (mu as usize) < total { mu as usize } else { total };
+            assert!(r.len() == want, "MuPlusLambda keeps min(mu, total) individuals");
+            assert!(submultiset(&r, np, nq, &po, &qo), "MuPlusLambda: result is a sub-multiset of parents and offspring");
+            // no discarded individual is strictly better than a kept one
+            let mut worst_kept = f64::NEG_INFINITY;
+            let mut i = 0;
+            while i < r.len() {
+                let v = r[i].objective().value();
+                if v > worst_kept {
+                    worst_kept = v;
+                }
+                i += 1;
+            }
+            let mut i = 0;
+            while i < np {
+                if !contains_tag(&r, i as u8) {
+                    assert!(r.is_empty() || po[i] >= worst_kept, "MuPlusLambda: discarded parent is not better than a kept individual");
+                }
+                i += 1;
+            }
+            let mut i = 0;
+            while i < nq {
+                if !contains_tag(&r, 10 + i as u8) {
+                    assert!(r.is_empty() || qo[i] >= worst_kept, "MuPlusLambda: discarded offspring is not better than a kept individual");
+                }
+                i += 1;
+            }
+            if total >= 2 {
+                vcover!(mu as usize == total - 1, "truncates by one");
+            }
+            std::mem::forget(r);
+        }
+        Err(_) => assert!(false, "MuPlusLambda never errs on evaluated individuals"),
+    }
+    assert!(crate::rng::draws() == 0, "MuPlusLambda draws nothing");
+    std::mem::forget(rng);
+}
+// @h tier=quick bound="parents 0, offspring 0; any mu" unwind=4 dead="truncates by one"
+h2!(h_c12_mupluslambda_0_0, mu_plus_lambda, 0, 0, 4);
+// @h tier=quick bound="parents 1, offspring 1; any mu; all legal objectives" unwind=5
+h2!(h_c12_mupluslambda_1_1, mu_plus_lambda, 1, 1, 5);
+// @h tier=quick bound="parents 2, offspring 1; any mu; all legal objectives" unwind=6
+h2!(h_c12_mupluslambda_2_1, mu_plus_lambda, 2, 1, 6);
+// @h tier=quick bound="parents 0, offspring 2; any mu" unwind=5
+h2!(h_c12_mupluslambda_0_2, mu_plus_lambda, 0, 2, 5);
+// @h tier=quick bound="parents 2, offspring 2; any mu; all legal objectives" unwind=7 cost=2
+h2!(h_c12_mupluslambda_2_2, mu_plus_lambda, 2, 2, 7);
+// @h tier=thorough bound="parents 3, offspring 2; any mu" unwind=8 cost=4 timeout=1200
+h2!(h_c12_mupluslambda_3_2, mu_plus_lambda, 3, 2, 8);
+
+fn random_replacement(np: usize, nq: usize) {
+    let (mut po, mut qo) = ([0.0; 4], [0.0; 4]);
+    let total = np + nq;
+    // shuffle of n draws n-1 range samples; +2 rejection slack
+    let mut rng = sym_random(if total > 0 { total as u32 + 1 } else { 2 });
+    let mu = sym::u32();
+    let r = Replacement::<TagP>::replace(&RandomReplacement::from_params(mu), mk(np, 0, &mut po), mk(nq, 10, &mut qo), &mut rng);
+    match r {
+        Ok(r) => {
+            let want = if (mu as usize) < total { mu as usize } else { total };
+            assert!(r.len() == want, "RandomReplacement keeps min(mu, total) individuals");
+            assert!(submultiset(&r, np, nq, &po, &qo), "RandomReplacement: result is a sub-multiset of parents and offspring");
+            if total >= 2 {
+                vcover!(r.len() == 1 && *r[0].solution() >= 10, "an offspring can survive alone");
+                vcover!(r.len() == 1 && *r[0].solution() < 10, "a parent can survive alone");
+            }
+            std::mem::forget(r);
+        }
+        Err(_) => assert!(false, "RandomReplacement never errs"),
+    }
+    std::mem::forget(rng);
+}
+// @h tier=quick bound="parents 0, offspring 0; any mu" unwind=4 dead="an offspring can survive alone;a parent can survive alone"
+h2!(h_c12_random_0_0, random_replacement, 0, 0, 4);
+// @h tier=quick bound="parents 1, offspring 1; any mu; all draw sequences within 3 draws" unwind=5
+h2!(h_c12_random_1_1, random_replacement, 1, 1, 5);
+// @h tier=quick bound="parents 2, offspring 1; any mu; all draw sequences within 4 draws" unwind=6 cost=2
+h2!(h_c12_random_2_1, random_replacement, 2, 1, 6);
+// @h tier=thorough bound="parents 2, offspring 2; any mu; all draw sequences within 5 draws" unwind=7 cost=4 timeout=1200
+h2!(h_c12_random_2_2, random_replacement, 2, 2, 7);
+
+fn keep_better(np: usize, nq: usize) {
+    let (mut po, mut qo) = ([0.0; 4], [0.0; 4]);
+    let mut rng = sym_random(0);
+    let r = Replacement::<TagP>::replace(&KeepBetterAtIndex::from_params(), mk(np, 0, &mut po), mk(nq, 10, &mut qo), &mut rng);
+    if np != nq {
+        assert!(r.is_err(), "KeepBetterAtIndex: unequal sizes are an error");
+    } else {
+        match r {
+            Ok(r) => {
+                assert!(r.len() == np, "KeepBetterAtIndex keeps the size");
+                let mut i = 0;
+                while i < np {
+                    if qo[i] < po[i] {
+                        assert!(same(&r[i], 10 + i as u8, qo[i]), "KeepBetterAtIndex: strictly better offspring replaces the parent at its index");
+                    } else {
+                        assert!(same(&r[i], i as u8, po[i]), "KeepBetterAtIndex: parent kept when not worse (ties kept by the parent)");
+                    }
+                    i += 1;
+                }
+                if np > 0 {
+                    vcover!(qo[0] == po[0], "tie");
+                    vcover!(qo[0] < po[0], "offspring better");
+                }
+                std::mem::forget(r);
+            }
+            Err(_) => assert!(false, "KeepBetterAtIndex succeeds on equal sizes"),
+        }
+    }
+    std::mem::forget(rng);
+}
+// @h tier=quick bound="parents 0, offspring 0" unwind=4 dead="tie;offspring better"
+h2!(h_c12_keepbetter_0_0, keep_better, 0, 0, 4);
+// @h tier=quick bound="parents 1, offspring 1; all legal objectives" unwind=5
+h2!(h_c12_keepbetter_1_1, keep_better, 1, 1, 5);
+// @h tier=quick bound="parents 2, offspring 2; all legal objectives" unwind=6
+h2!(h_c12_keepbetter_2_2, keep_better, 2, 2, 6);
+// @h tier=quick bound="parents 2, offspring 1 (unequal)" unwind=6 dead="tie;offspring better"
+h2!(h_c12_keepbetter_2_1, keep_better, 2, 1, 6);
+// @h tier=quick bound="parents 0, offspring 1 (unequal)" unwind=5 dead="tie;offspring better"
+h2!(h_c12_keepbetter_0_1, keep_better, 0, 1, 5);
+// @h tier=thorough bound="parents 3, offspring 3; all legal objectives" unwind=7
+h2!(h_c12_keepbetter_3_3, keep_better, 3, 3, 7);
+
+// ---- the driver: consumes exactly the two top populations, leaves one, nothing below is touched
+
+fn driver_state(np: usize, nq: usize, po: &mut [f64; 4], qo: &mut [f64; 4], base_o: f64) -> State<'static, TagP> {
+    let mut pops = Populations::<TagP>::new();
+    pops.push(vec![Individual::new(99u8, obj(base_o))]);
+    pops.push(mk(np, 0, po));
+    pops.push(mk(nq, 10, qo));
+    let mut s: State<TagP> = State::new();
+    s.insert(sym_random(0));
+    s.insert(pops);
+    s
+}
+
+fn driver_generational(np: usize, nq: usize) {
+    let (mut po, mut qo) = ([0.0; 4], [0.0; 4]);
+    let b = sym::legal_f64();
+    let mut s = driver_state(np, nq, &mut po, &mut qo, b);
+    let r = Component::<TagP>::execute(&Generational::from_params(sym::u32()), &TagP, &mut s);
+    assert!(r.is_ok(), "driver: Generational succeeds");
+    {
+        let p = s.populations();
+        assert!(p.len() == 2, "driver: two populations consumed, one pushed");
+        let top = p.current();
+        assert!(top.len() == nq, "driver+Generational: the new top is the offspring population");
+        let mut i = 0;
+        while i < nq {
+            assert!(same(&top[i], 10 + i as u8, qo[i]), "driver+Generational: offspring unchanged");
+            i += 1;
+        }
+        let below = p.peek(1);
+        assert!(below.len() == 1 && same(&below[0], 99, b), "driver: the population underneath is untouched");
+    }
+    std::mem::forget(s);
+}
+// @h tier=quick bound="stack [base, parents 1, offspring 0]: Generational through the driver" unwind=5 cost=3
+h2!(h_c12_driver_generational_1_0, driver_generational, 1, 0, 5);
+// @h tier=quick bound="stack [base, parents 1, offspring 2]: Generational through the driver" unwind=5 cost=3
+h2!(h_c12_driver_generational_1_2, driver_generational, 1, 2, 5);
+
+fn driver_keepbetter(np: usize, nq: usize) {
+    let (mut po, mut qo) = ([0.0; 4], [0.0; 4]);
+    let b = sym::legal_f64();
+    let mut s = driver_state(np, nq, &mut po, &mut qo, b);
+    let r = Component::<TagP>::execute(&KeepBetterAtIndex::from_params(), &TagP, &mut s);
+    if np != nq {
+        assert!(r.is_err(), "driver: KeepBetterAtIndex error is propagated");
+    } else {
+        assert!(r.is_ok(), "driver: KeepBetterAtIndex succeeds");
+        let p = s.populations();
+        assert!(p.len() == 2, "driver: two populations consumed, one pushed");
+        let top = p.current();
+        assert!(top.len() == np, "driver+KeepBetterAtIndex: size kept");
+        if np == 1 {
+            if qo[0] < po[0] {
+                assert!(same(&top[0], 10, qo[0]), "driver+KeepBetterAtIndex: better offspring kept");
+            } else {
+                assert!(same(&top[0], 0, po[0]), "driver+KeepBetterAtIndex: parent kept on tie or better");
+            }
+        }
+        let below = p.peek(1);
+        assert!(below.len() == 1 && same(&below[0], 99, b), "driver: the population underneath is untouched");
+    }
+    std::mem::forget(s);
+}
+// @h tier=quick bound="stack [base, parents 1, offspring 1]: KeepBetterAtIndex through the driver" unwind=5 cost=3
+h2!(h_c12_driver_keepbetter_1_1, driver_keepbetter, 1, 1, 5);
+// @h tier=quick bound="stack [base, parents 1, offspring 0]: KeepBetterAtIndex error through the driver" unwind=5 cost=3
+h2!(h_c12_driver_keepbetter_1_0, driver_keepbetter, 1, 0, 5);
